@@ -75,6 +75,16 @@ static std::vector<uint8_t> gen_dict(vf::Ctx& c, int* kind_out, std::vector<uint
         size_t hdr = std::min<size_t>(d.size(), 300);
         for (unsigned i = 0; i < k; i++) { size_t at = (size_t)t.range(4, hdr - 1); if (t.flip()) d[at] ^= (uint8_t)(1u << t.range(0, 7)); else d[at] = (uint8_t)t.range(0, 255); }
     }
+    if (kind != DK_RAW && t.chance(30)) {
+        // the three start-of-frame repeat offsets stored in the header (the 12 bytes before the content): the trainers always
+        // write {1,4,8}; the format allows any non-zero value up to the content size
+        size_t hs0 = ZDICT_getDictHeaderSize(d.data(), d.size());
+        if (!ZDICT_isError(hs0) && hs0 >= 20 && hs0 < d.size()) {
+            size_t content = d.size() - hs0;
+            for (unsigned i = 0; i < 3; i++) { uint32_t v = (uint32_t)t.range(1, std::min<size_t>(content, t.flip() ? 16 : 70000)); for (unsigned b = 0; b < 4; b++) d[hs0 - 12 + 4 * i + b] = (uint8_t)(v >> (8 * b)); }
+            c.label("dictionary_with_odd_repeat_offsets");
+        }
+    }
     if (kind != DK_RAW) {
         // content = what follows the header (only used to correlate the input with it)
         size_t hs = ZDICT_getDictHeaderSize(d.data(), d.size());
